@@ -1,6 +1,6 @@
 --------------------------- MODULE Trace_WriteAtomic ---------------------------
 (* Validation of the runs recorded by harness/db/c11_writeatomic_test.go on the REAL code.  One run =
-     {a:"Begin", run, type, path, primary, clean, faults, prog, pre, effpre, rec}     the program + the real state before
+     {a:"Begin", run, type, path, primary, clean, faults, prog, pre, effpre, rec, nofault, envw}   the program + the real state before
      {a:"Op", i, m, c, w, cas, r}                                                      every storage operation the request issued
      {a:"End", reply, post, effpost, took, given, rb}                                  the reply + the real state after
    pre/post: one digest per key class of the WHOLE bucket, read through the undecorated handles; effpre/effpost: the run's
@@ -35,7 +35,8 @@ TInit == /\ InitFor(Dummy) /\ l = 1 /\ run = 0 /\ conf = TRUE
 RBegin == /\ run' = T.run
           /\ pre' = [c \in Classes |-> T.pre[c]] /\ post' = [c \in Classes |-> T.pre[c]]
           /\ effpre' = T.effpre /\ effpost' = T.effpre
-          /\ rreply' = "none" /\ rtook' = 0 /\ rgiven' = {} /\ rb' = <<>> /\ rta' = FALSE /\ rcommitted' = FALSE /\ rrel' = FALSE /\ rdirty' = {}
+          /\ rreply' = "none" /\ rtook' = 0 /\ rgiven' = {} /\ rb' = <<>> /\ rta' = FALSE /\ rcommitted' = FALSE /\ rrel' = FALSE
+          /\ rdirty' = SeqToSet(T.envw)     \* classes written by the scenario's acknowledged concurrent writer (race scenarios), not by the request
 Applied(r) == r \in {"ok", "TA"}
 IsCommitOp(t) == /\ CommitIdx # 0 /\ t.w /\ t.c = p.primary /\ t.m = M(Ops[CommitIdx])
 ROp == /\ rta' = (rta \/ T.r = "TA")
@@ -100,7 +101,7 @@ Unchanged == (\A c \in Visible : post[c] = pre[c]) /\ effpost = effpre
 SeqBack   == (\A s \in 1..rtook : s \in rgiven) \/ rrel
 ReadBack  == \A i \in 1..Len(rb) : rb[i][1] = rb[i][2]
 AllOrNothingR == AON(rreply, rta, Unchanged, SeqBack)
-NoSwallowR    == NSW(rreply, rcommitted, ReadBack)
+NoSwallowR    == NSW(rreply, rcommitted \/ CommitIdx = 0, ReadBack)
 
 (* auxiliary (pass C): the decorator saw every write - no Visible class changed without a recorded applied write *)
 NoUnrecordedWrite == (rreply # "none") => \A c \in Visible : post[c] # pre[c] => c \in rdirty
